@@ -20,7 +20,7 @@ def generate_rollout(
 
     obs.append(observation)
 
-    while not terminated or truncated:
+    while not (terminated or truncated):
         key, subkey = jax.random.split(key)
 
         action = policy(observation=observation, key=subkey)
